@@ -521,9 +521,14 @@ func replayGenerated(prop string, r *oblResult, path string) bool {
 		appendTo("\n--- replay ---\nnot attempted: %s\n", why)
 		return false
 	}
+	dropQuant := false
 	if r.V.Status != "sat" {
-		appendTo("\n--- replay ---\nnot attempted: the solver gave no model (%s)\n", r.V.Status)
-		return false
+		// no model (quantified assumptions make the solvers answer "unknown" on satisfiable problems):
+		// look for a candidate model of the query WITHOUT its quantified assumptions. Such a model may
+		// violate a dropped assumption, so it proves nothing by itself - the replay on the real code
+		// decides whether it is a failing input.
+		dropQuant = true
+		appendTo("\n--- replay ---\nthe solver gave no model (%s); candidate model taken from the query without its quantified assumptions\n", r.V.Status)
 	}
 	// ask the solver again for the values of the replay terms
 	var terms []Term
@@ -531,6 +536,7 @@ func replayGenerated(prop string, r *oblResult, path string) bool {
 		p.collect(&terms)
 	}
 	o2 := *r.O
+	o2.DropQuant = dropQuant
 	o2.ModelOf = nil
 	for i, t := range terms {
 		o2.ModelOf = append(o2.ModelOf, ModelVar{fmt.Sprint(i), t})
@@ -584,10 +590,12 @@ func replayGenerated(prop string, r *oblResult, path string) bool {
 	for i, t := range terms {
 		vals[normSpace(t.S)] = ordered[i]
 	}
+	usedPkgs := map[string]string{} // import path -> name, of every other package a type string mentions
 	qual := func(p *types.Package) string {
 		if p == rs.fn.Pkg.Pkg {
 			return ""
 		}
+		usedPkgs[p.Path()] = p.Name()
 		return p.Name()
 	}
 	var ints []int64
@@ -639,6 +647,7 @@ func replayGenerated(prop string, r *oblResult, path string) bool {
 	}
 	var b strings.Builder
 	fmt.Fprintf(&b, "package %s\n\n// generated by govc from the counter-model of obligation %s\n\nimport \"testing\"\n\n", rs.pkgName, r.O.Name)
+	importsAt := b.Len()
 	fmt.Fprintf(&b, "func TestVerifReplayGenerated(t *testing.T) {\n\tcands := []int{%s}\n\t_ = cands\n", strings.Join(cs, ", "))
 	params := map[string]bool{}
 	for i, n := range rs.names {
@@ -678,6 +687,20 @@ func replayGenerated(prop string, r *oblResult, path string) bool {
 	}
 	b.WriteString("}\n")
 	src := b.String()
+	// imports for the other packages the literals mention (import path aliased to the package name used)
+	if len(usedPkgs) > 0 {
+		var paths []string
+		for pth := range usedPkgs {
+			paths = append(paths, pth)
+		}
+		sort.Strings(paths)
+		var ib strings.Builder
+		for _, pth := range paths {
+			fmt.Fprintf(&ib, "import %s %q\n", usedPkgs[pth], pth)
+		}
+		ib.WriteString("\n")
+		src = src[:importsAt] + ib.String() + src[importsAt:]
+	}
 	goPath := strings.TrimSuffix(path, ".txt") + "_test.go.txt"
 	os.WriteFile(goPath, []byte(src), 0o644)
 	if wantPost && checked == 0 {
